@@ -27,34 +27,48 @@ Proof.
 Qed.
 
 (* ------------------------------------------------------------------ primitives *)
-Section Prims.
+(* Everything up to the single invocation is generic in the state invariant: it is used for
+   "the kernel table stays well-formed" (no panic), "pretend changes nothing", "mounting does not
+   touch files". *)
+Definition fsopP (o : op) : Prop := match o with OMount _ _ _ _ _ | OUmount _ _ => False | _ => True end.
+Definition mntopP (o : op) : Prop :=
+  match o with OMount _ _ ty _ _ => nospace ty = true | OUmount _ _ => True | _ => False end.
+
+Section Gen.
+Variable Iv : wpred.
 Variable bad : bool.
 Variable e : env.
+Hypothesis Hfsop : forall o, fsopP o -> hoare Iv bad ptrue (do_op e o) (fun _ => ptrue).
+Hypothesis Hmntop : forall o, mntopP o -> hoare Iv bad ptrue (do_op e o) (fun _ => ptrue).
+Hypothesis Hwt : forall p c0, hoare Iv bad ptrue (fs_write_text e p c0) (fun _ => ptrue).
+Hypothesis Hwa : forall p ch, hoare Iv bad ptrue (write_file_atomically e p ch) (fun _ => ptrue).
+Hypothesis Hrf : forall c sk ld, LDI sk ld ->
+  hs Iv bad (refresh_mounts c ld) (fun ld' => LDI sk ld' /\ ld_order ld' = ld_order ld).
 
-Lemma fs_mkdir_hs p : hs KW bad (fs_mkdir e p) (fun _ => True).
-Proof. unfold fs_mkdir. apply hs_true, KW_do_op. reflexivity. Qed.
-Lemma fs_rename_hs a b : hs KW bad (fs_rename e a b) (fun _ => True).
-Proof. unfold fs_rename. apply hs_true, KW_do_op. reflexivity. Qed.
-Lemma fs_remove_hs p : hs KW bad (fs_remove e p) (fun _ => True).
-Proof. unfold fs_remove. apply hs_true, KW_do_op. reflexivity. Qed.
-Lemma fs_symlink_hs a b : hs KW bad (fs_symlink e a b) (fun _ => True).
-Proof. unfold fs_symlink. apply hs_true, KW_do_op. reflexivity. Qed.
-Lemma fs_write_text_hs p c : hs KW bad (fs_write_text e p c) (fun _ => True).
-Proof. apply hs_true, KW_write_text. Qed.
-Lemma write_layerfile_hs l : hs KW bad (write_layerfile e l) (fun _ => True).
-Proof. unfold write_layerfile. apply hs_true, KW_write_atomically. Qed.
-Lemma fs_unmount_hs t : hs KW bad (fs_unmount e t) (fun _ => True).
-Proof. unfold fs_unmount. apply hs_true, KW_do_op. reflexivity. Qed.
-Lemma fs_mount_hs src tgt ty data : nospace ty = true -> hs KW bad (fs_mount e src tgt ty data) (fun _ => True).
+Lemma fs_mkdir_hs p : hs Iv bad (fs_mkdir e p) (fun _ => True).
+Proof. unfold fs_mkdir. apply hs_true, Hfsop. exact I. Qed.
+Lemma fs_rename_hs a b : hs Iv bad (fs_rename e a b) (fun _ => True).
+Proof. unfold fs_rename. apply hs_true, Hfsop. exact I. Qed.
+Lemma fs_remove_hs p : hs Iv bad (fs_remove e p) (fun _ => True).
+Proof. unfold fs_remove. apply hs_true, Hfsop. exact I. Qed.
+Lemma fs_symlink_hs a b : hs Iv bad (fs_symlink e a b) (fun _ => True).
+Proof. unfold fs_symlink. apply hs_true, Hfsop. exact I. Qed.
+Lemma fs_write_text_hs p c : hs Iv bad (fs_write_text e p c) (fun _ => True).
+Proof. apply hs_true, Hwt. Qed.
+Lemma write_layerfile_hs l : hs Iv bad (write_layerfile e l) (fun _ => True).
+Proof. unfold write_layerfile. apply hs_true, Hwa. Qed.
+Lemma fs_unmount_hs t : hs Iv bad (fs_unmount e t) (fun _ => True).
+Proof. unfold fs_unmount. apply hs_true, Hmntop. exact I. Qed.
+Lemma fs_mount_hs src tgt ty data : nospace ty = true -> hs Iv bad (fs_mount e src tgt ty data) (fun _ => True).
 Proof.
-  intros H. unfold fs_mount. apply hs_seq; [apply hs_true, KW_do_op; exact H|].
-  destruct (memb src propagation_sources); [apply hs_true, KW_do_op; reflexivity|now apply hs_ret].
+  intros H. unfold fs_mount. apply hs_seq; [apply hs_true, Hmntop; exact H|].
+  destruct (memb src propagation_sources); [apply hs_true, Hmntop; reflexivity|now apply hs_ret].
 Qed.
 
-Lemma make_symlink_hs src tgt : hs KW bad (make_symlink_in_dir e src tgt) (fun _ => True).
+Lemma make_symlink_hs src tgt : hs Iv bad (make_symlink_in_dir e src tgt) (fun _ => True).
 Proof.
   unfold make_symlink_in_dir. apply hs_get_fs_k. intros f. cbv zeta.
-  assert (F : hs KW bad (f1 <- get_fs ;;
+  assert (F : hs Iv bad (f1 <- get_fs ;;
               (if is_dir f1 (pathdir tgt) then ret tt else fs_mkdir e (pathdir tgt)) ;;; fs_symlink e tgt src)
               (fun _ => True)).
   { apply hs_get_fs_k. intros f1. apply hs_seq; [|apply fs_symlink_hs].
@@ -64,7 +78,7 @@ Proof.
     (apply hs_seq; [apply fs_remove_hs|exact F]).
 Qed.
 
-Lemma make_export_symlinks_hs c l : hs KW bad (make_export_symlinks e c l) (fun _ => True).
+Lemma make_export_symlinks_hs c l : hs Iv bad (make_export_symlinks e c l) (fun _ => True).
 Proof.
   unfold make_export_symlinks. destruct (expand_config_exports c l) as [es|]; [|apply hs_fail].
   apply hs_seq; [apply hs_mapM_; intros x _; apply make_symlink_hs|].
@@ -73,23 +87,22 @@ Proof.
   destruct (is_symlink f (fst lt)); [apply fs_remove_hs|now apply hs_ret].
 Qed.
 
-Lemma remove_export_links_hs c l : hs KW bad (remove_export_links e c l) (fun _ => True).
+Lemma remove_export_links_hs c l : hs Iv bad (remove_export_links e c l) (fun _ => True).
 Proof.
   unfold remove_export_links. apply hs_mapM_. intros lt _. apply hs_get_fs_k. intros f.
   destruct (negb (exists_ f (fst lt))); [now apply hs_ret|].
   destruct (negb (is_symlink f (fst lt))); [apply hs_fail|apply fs_remove_hs].
 Qed.
-End Prims.
 
-Lemma renormalize_hs ld : allreach (ld_map ld) -> hs KW true (renormalize ld) (fun _ => True).
+Lemma renormalize_hs ld : allreach (ld_map ld) -> hs Iv bad (renormalize ld) (fun _ => True).
 Proof.
   intros H. unfold renormalize. destruct (normalize_order (ld_map ld)) eqn:E; [now apply hs_ret|].
   exfalso. exact (normalize_some _ H E).
 Qed.
 
 (* ------------------------------------------------------------------ structural commands *)
-Lemma add_layer_hs e c sk ld name base cf : LDI sk ld -> SKF sk ->
-  hs KW true (add_layer e c ld name base cf) (fun _ => True).
+Lemma add_layer_hs c sk ld name base cf : LDI sk ld -> SKF sk ->
+  hs Iv bad (add_layer e c ld name base cf) (fun _ => True).
 Proof.
   intros [Hs HW] HF. destruct (HF _ Hs) as [HA ND]. unfold add_layer.
   apply hs_guard_k. intros G. apply andb_true_iff in G as [G1 G2].
@@ -104,8 +117,8 @@ Proof.
   destruct G2 as [->|(_ & l0 & E)]; [now left|right; congruence].
 Qed.
 
-Lemma remove_layer_hs e c sk ld name files : LDI sk ld -> SKF sk ->
-  hs KW true (remove_layer e c ld name files) (fun _ => True).
+Lemma remove_layer_hs c sk ld name files : LDI sk ld -> SKF sk ->
+  hs Iv bad (remove_layer e c ld name files) (fun _ => True).
 Proof.
   intros [Hs HW] HF. destruct (HF _ Hs) as [HA ND]. unfold remove_layer.
   apply hs_guard_k. intros G. apply test_name_need in G as (Hn & _ & l & El). rewrite El.
@@ -117,8 +130,8 @@ Proof.
   apply renormalize_hs. cbn [ld_map]. now apply allreach_del.
 Qed.
 
-Lemma rename_layer_hs e c sk ld old new : LDI sk ld -> SKF sk ->
-  hs KW true (rename_layer e c ld old new) (fun _ => True).
+Lemma rename_layer_hs c sk ld old new : LDI sk ld -> SKF sk ->
+  hs Iv bad (rename_layer e c ld old new) (fun _ => True).
 Proof.
   intros [Hs HW] HF. destruct (HF _ Hs) as [HA ND]. unfold rename_layer.
   apply hs_guard_k. intros G. apply andb_true_iff in G as [G1 G2].
@@ -132,8 +145,8 @@ Proof.
   - intros ld' _. apply hs_seq; [apply write_layerfile_hs|now apply hs_ret].
 Qed.
 
-Lemma rebase_layer_hs e c sk ld name newbase : LDI sk ld -> SKF sk ->
-  hs KW true (rebase_layer e c ld name newbase) (fun _ => True).
+Lemma rebase_layer_hs c sk ld name newbase : LDI sk ld -> SKF sk ->
+  hs Iv bad (rebase_layer e c ld name newbase) (fun _ => True).
 Proof.
   intros [Hs HW] HF. unfold rebase_layer.
   apply hs_guard_k. intros G. apply andb_true_iff in G as [G1 _].
@@ -145,7 +158,7 @@ Proof.
 Qed.
 
 (* ------------------------------------------------------------------ mkdirs / mount / umount *)
-Lemma makedirs_hs bad e c sk ld name : LDI sk ld -> hs KW bad (makedirs e c ld name) (LDI sk).
+Lemma makedirs_hs c sk ld name : LDI sk ld -> hs Iv bad (makedirs e c ld name) (LDI sk).
 Proof.
   intros H. unfold makedirs.
   apply hs_guard_k. intros G. apply test_name_need in G as (Ho & _ & l & El). rewrite El.
@@ -174,8 +187,8 @@ Proof.
   destruct (adjust_prefixed _ _); [|discriminate]. injection E as <-. cbn [x_fstype]. now apply (mounts_ok_nospace l).
 Qed.
 
-Lemma mount_one_hs e c sk ld name : LDI sk ld -> SKF sk -> sk_has sk name ->
-  hs KW true (mount_one e c ld name) (LDI sk).
+Lemma mount_one_hs c sk ld name : LDI sk ld -> SKF sk -> sk_has sk name ->
+  hs Iv bad (mount_one e c ld name) (LDI sk).
 Proof.
   intros H HF Hn. pose proof H as [Hs HW]. destruct (HF _ Hs) as [HA _]. unfold mount_one.
   destruct (lm_get (ld_map ld) name) as [l|] eqn:El; [|exfalso; exact (Hn _ Hs El)].
@@ -191,7 +204,7 @@ Proof.
   assert (Hxs : forall x, In x xs -> nospace (x_fstype x) = true).
   { eapply expand_mounts_fstype; [exact Ex|]. apply HW. eapply lm_get_in; eauto. }
   eapply hs_bind with (Q := LDI sk).
-  { clear - H Hxs. revert ld H. induction xs as [|x r IH]; intros ld H.
+  { clear - H Hxs Hfsop Hmntop Hrf. revert ld H. induction xs as [|x r IH]; intros ld H.
     - now apply hs_ret.
     - cbv beta iota fix.
       destruct (get_mount (pr_mounts (ld_probe ld)) (x_mount x)) as [mnt|].
@@ -201,16 +214,16 @@ Proof.
         { destruct (exists_ f (x_source x)); [now apply hs_ret|].
           destruct (in_any_layer_dir 64 (c_layers c) (x_source x)); [apply fs_mkdir_hs|apply hs_fail]. }
         apply hs_seq; [apply fs_mount_hs, Hxs; now left|].
-        eapply hs_bind; [apply (refresh_hs true c sk ld H)|]. intros ld' [H' _].
+        eapply hs_bind; [apply (Hrf c sk ld H)|]. intros ld' [H' _].
         apply IH; [intros y Hy; apply Hxs; now right|exact H']. }
-  intros ld0 H0. eapply hs_bind; [apply (refresh_hs true c sk ld0 H0)|]. intros ld1 [H1 _].
+  intros ld0 H0. eapply hs_bind; [apply (Hrf c sk ld0 H0)|]. intros ld1 [H1 _].
   apply hs_get_fs_k. intros f.
   destruct (lm_get (ld_map ld1) name) as [l1|] eqn:El1; [|exfalso; exact (Hn _ (proj1 H1) El1)].
   cbv zeta. apply hs_guard_k. intros _. apply hs_ret.
   apply (LDI_set_layer sk ld1 _ l1 H1); [now rewrite (lm_get_name _ _ _ El1)|apply find_layerstate_core].
 Qed.
 
-Lemma mount_layer_hs e c sk ld name : LDI sk ld -> SKF sk -> hs KW true (mount_layer e c ld name) (LDI sk).
+Lemma mount_layer_hs c sk ld name : LDI sk ld -> SKF sk -> hs Iv bad (mount_layer e c ld name) (LDI sk).
 Proof.
   intros H HF. pose proof H as [Hs HW]. destruct (HF _ Hs) as [HA _]. unfold mount_layer.
   apply hs_guard_k. intros G. apply test_name_need in G as (Ho & _ & l & El). rewrite El.
@@ -230,29 +243,29 @@ Proof.
     rewrite Ea in E. injection E as <-. intros x Hx. destruct (Hin x Hx) as [[]|Hx'].
     eapply sk_has_in; eauto. }
   eapply hs_bind with (Q := LDI sk).
-  { apply (hs_foldM KW true (LDI sk)); [|exact H]. intros ld' x Hx H'. now apply makedirs_hs. }
+  { apply (hs_foldM Iv bad (LDI sk)); [|exact H]. intros ld' x Hx H'. now apply makedirs_hs. }
   intros ld1 H1. eapply hs_bind with (Q := LDI sk).
-  { apply (hs_foldM KW true (LDI sk)); [|exact H1]. intros ld' x Hx H'. apply mount_one_hs; auto. }
+  { apply (hs_foldM Iv bad (LDI sk)); [|exact H1]. intros ld' x Hx H'. apply mount_one_hs; auto. }
   intros ld2 H2. apply hs_seq; [apply hs_mapM_; intros x _; apply make_export_symlinks_hs|now apply hs_ret].
 Qed.
 
-Lemma unmount_layer_hs e c sk ld name : LDI sk ld -> sk_has sk name ->
-  hs KW true (unmount_layer e c ld name) (fun r => LDI sk (snd r)).
+Lemma unmount_layer_hs c sk ld name : LDI sk ld -> sk_has sk name ->
+  hs Iv bad (unmount_layer e c ld name) (fun r => LDI sk (snd r)).
 Proof.
   intros H Hn. pose proof H as [Hs HW]. unfold unmount_layer.
   destruct (lm_get (ld_map ld) name) as [l|] eqn:El; [|exfalso; exact (Hn _ Hs El)].
   destruct (error_if_busy l false); [now apply hs_ret|].
   destruct (l_kmounts l) as [|k0 kr]; [now apply hs_ret|].
   apply hs_seq; [apply hs_mapM_; intros t _; apply fs_unmount_hs|].
-  eapply hs_bind; [apply (refresh_hs true c sk ld H)|]. intros ld1 [H1 _].
+  eapply hs_bind; [apply (Hrf c sk ld H)|]. intros ld1 [H1 _].
   apply hs_get_fs_k. intros f.
   destruct (lm_get (ld_map ld1) name) as [l1|] eqn:El1; [|exfalso; exact (Hn _ (proj1 H1) El1)].
   apply hs_ret. cbn [snd].
   apply (LDI_set_layer sk ld1 _ l1 H1); [now rewrite (lm_get_name _ _ _ El1)|apply find_layerstate_core].
 Qed.
 
-Lemma unmount_hs e c sk ld name all : LDI sk ld -> (forall n, In n (ld_order ld) -> sk_has sk n) ->
-  hs KW true (unmount e c ld name all) (fun _ => True).
+Lemma unmount_hs c sk ld name all : LDI sk ld -> (forall n, In n (ld_order ld) -> sk_has sk n) ->
+  hs Iv bad (unmount e c ld name all) (fun _ => True).
 Proof.
   intros H Ho. pose proof H as [Hs HW]. unfold unmount. destruct name as [|a name'].
   - destruct (negb all); [apply hs_fail|].
@@ -261,21 +274,21 @@ Proof.
       { intros n Hn. apply Ho. now apply in_rev. }
       match goal with |- hs _ _ (?go _ _ _) _ =>
         assert (L : forall names ld0 busy, LDI sk ld0 -> (forall n, In n names -> sk_has sk n) ->
-                    hs KW true (go names ld0 busy) (fun r => LDI sk (snd r))) end.
+                    hs Iv bad (go names ld0 busy) (fun r => LDI sk (snd r))) end.
       { induction names as [|n rest IH]; intros ld0 busy H0 Hn0.
         - now apply hs_ret.
-        - cbv beta iota fix. eapply hs_bind; [apply (unmount_layer_hs e c sk ld0 n H0); apply Hn0; now left|].
+        - cbv beta iota fix. eapply hs_bind; [apply (unmount_layer_hs c sk ld0 n H0); apply Hn0; now left|].
           intros r Hr. apply IH; [exact Hr|intros n' Hn'; apply Hn0; now right]. }
       apply L; assumption.
     + intros r _. destruct (fst r); [apply hs_fail|now apply hs_ret].
   - destruct all; [apply hs_fail|].
     apply hs_guard_k. intros G. apply test_name_need in G as (_ & _ & l & El).
-    eapply hs_bind; [apply (unmount_layer_hs e c sk ld _ H)|].
+    eapply hs_bind; [apply (unmount_layer_hs c sk ld _ H)|].
     + rewrite <- (lm_get_name _ _ _ El). apply (sk_has_in sk (ld_map ld) l Hs). eapply lm_get_in; eauto.
     + intros r _. destruct (fst r); [now apply hs_ret|apply hs_fail|apply hs_fail].
 Qed.
 
-Lemma shake_hs e c ld : hs KW true (shake e c ld) (fun _ => True).
+Lemma shake_hs c ld : hs Iv bad (shake e c ld) (fun _ => True).
 Proof.
   unfold shake. apply hs_seq; [|now apply hs_ret]. apply hs_mapM_. intros n _.
   destruct (lm_get (ld_map ld) n) as [l|]; [|now apply hs_ret].
@@ -283,15 +296,15 @@ Proof.
   destruct (st_mounted <=? l_state l)%N; [|now apply hs_ret]. apply fs_mount_hs. reflexivity.
 Qed.
 
-Lemma chroot_hs e c sk ld name : LDI sk ld -> SKF sk -> hs KW true (chroot_prepare e c ld name) (fun _ => True).
+Lemma chroot_hs c sk ld name : LDI sk ld -> SKF sk -> hs Iv bad (chroot_prepare e c ld name) (fun _ => True).
 Proof.
   intros H HF. unfold chroot_prepare.
   apply hs_guard_k. intros G. apply test_name_need in G as (_ & _ & l & El). rewrite El.
   destruct (l_state l <? st_mounted)%N; [|now apply hs_ret].
-  eapply hs_weaken; [now apply (mount_layer_hs e c sk ld name)|auto].
+  eapply hs_weaken; [now apply (mount_layer_hs c sk ld name)|auto].
 Qed.
 
-Lemma init_base_hs e c : hs KW true (init_base e c) (fun _ => True).
+Lemma init_base_hs c : hs Iv bad (init_base e c) (fun _ => True).
 Proof.
   unfold init_base. apply hs_get_fs_k. intros f. cbv zeta.
   apply hs_seq.
@@ -302,6 +315,18 @@ Proof.
   destruct (filter (fun p => negb (is_dir f p)) _); [|now apply hs_ret].
   destruct (filter (fun pc => negb (is_file f (fst pc))) _); [apply hs_fail|now apply hs_ret].
 Qed.
+
+End Gen.
+
+(* ------------------------------------------------------------------ instance: the kernel table stays well-formed *)
+Lemma KW_fsop bad e o : fsopP o -> hoare KW bad ptrue (do_op e o) (fun _ => ptrue).
+Proof. intros H. apply KW_do_op. destruct o; cbn in H |- *; try contradiction; reflexivity. Qed.
+Lemma KW_mntop bad e o : mntopP o -> hoare KW bad ptrue (do_op e o) (fun _ => ptrue).
+Proof. intros H. apply KW_do_op. destruct o; cbn in H |- *; try contradiction; try reflexivity. exact H. Qed.
+Lemma KW_rf bad c sk ld : LDI sk ld ->
+  hs KW bad (refresh_mounts c ld) (fun ld' => LDI sk ld' /\ ld_order ld' = ld_order ld).
+Proof. apply refresh_hs. Qed.
+#[export] Hint Resolve KW_fsop KW_mntop KW_write_text KW_write_atomically KW_rf : kwinst.
 
 (* ------------------------------------------------------------------ one invocation *)
 Definition no_bad {A} (o : outcome A) : Prop := match o with Diverged | Panicked => False | _ => True end.
@@ -346,16 +371,16 @@ Proof.
      hs KW true (body ld) (fun _ => True)) -> no_bad (fst (with_layers c um body s))).
   { intros body Hb. now apply with_layers_nd. }
   destruct cmd; cbn [run_command]; try apply apply_op_nd.
-  - (* init *) pose proof (init_base_hs e c s HK I) as H. unfold bind.
+  - (* init *) pose proof (init_base_hs KW true e (KW_fsop true e) (KW_write_text true e) c s HK I) as H. unfold bind.
     destruct (init_base e c s) as [[u| | | |] s']; cbn; auto.
-  - apply (W (fun ld => add_layer e c ld name base configfile)). intros. now apply add_layer_hs with (sk := sk).
-  - apply (W (fun ld => remove_layer e c ld name files)). intros. now apply remove_layer_hs with (sk := sk).
-  - apply (W (fun ld => rename_layer e c ld a b0)). intros. now apply rename_layer_hs with (sk := sk).
-  - apply (W (fun ld => rebase_layer e c ld a b0)). intros. now apply rebase_layer_hs with (sk := sk).
-  - apply (W (fun ld => makedirs e c ld a)). intros. eapply hs_weaken; [now apply makedirs_hs with (sk := sk)|auto].
-  - apply (W (fun ld => mount_layer e c ld a)). intros. eapply hs_weaken; [now apply mount_layer_hs with (sk := sk)|auto].
-  - apply (W (fun ld => unmount e c ld a all)). intros. now apply unmount_hs with (sk := sk).
-  - apply (W (fun ld => shake e c ld)). intros. apply shake_hs.
-  - apply (W (fun ld => chroot_prepare e c ld a)). intros. now apply chroot_hs with (sk := sk).
+  - apply (W (fun ld => add_layer e c ld name base configfile)). intros. eapply add_layer_hs with (sk := sk); eauto with kwinst.
+  - apply (W (fun ld => remove_layer e c ld name files)). intros. eapply remove_layer_hs with (sk := sk); eauto with kwinst.
+  - apply (W (fun ld => rename_layer e c ld a b0)). intros. eapply rename_layer_hs with (sk := sk); eauto with kwinst.
+  - apply (W (fun ld => rebase_layer e c ld a b0)). intros. eapply rebase_layer_hs with (sk := sk); eauto with kwinst.
+  - apply (W (fun ld => makedirs e c ld a)). intros. eapply hs_weaken; [eapply makedirs_hs with (sk := sk); eauto with kwinst|auto].
+  - apply (W (fun ld => mount_layer e c ld a)). intros. eapply hs_weaken; [eapply mount_layer_hs with (sk := sk); eauto with kwinst|auto].
+  - apply (W (fun ld => unmount e c ld a all)). intros. eapply unmount_hs with (sk := sk); eauto with kwinst.
+  - apply (W (fun ld => shake e c ld)). intros. eapply shake_hs; eauto with kwinst.
+  - apply (W (fun ld => chroot_prepare e c ld a)). intros. eapply chroot_hs with (sk := sk); eauto with kwinst.
   - apply (W (fun ld => ret ld)). intros. now apply hs_ret.
 Qed.
